@@ -105,6 +105,24 @@ type Store struct {
 	Lenient  bool
 	// ResponseKeyName names the key pair GetResponseSigningKey hands out ("" = idp-response); changing it models a key roll-over.
 	ResponseKeyName string
+	// KeysPerIssuer: the response-signing key depends on the issuer in the context of the call (see ResponseKeyFor)
+	KeysPerIssuer bool
+}
+
+// ResponseKeyFor is the key a storage with one signing key per issuer (tenant) hands out for the issuer found in the context of
+// the call; a call whose context names no issuer gets a key no tenant uses.
+func ResponseKeyFor(issuer string) string {
+	if issuer == "" {
+		return "rogue"
+	}
+	h := 0
+	for i := 0; i < len(issuer); i++ {
+		h = h*31 + int(issuer[i])
+	}
+	if h < 0 {
+		h = -h
+	}
+	return []string{"idp-response", "sp-b", "sp-c"}[h%3]
 }
 
 // RotateResponseKey makes the storage hand out another response-signing key pair from now on.
@@ -338,6 +356,9 @@ func (s *Store) GetResponseSigningKey(ctx context.Context) (*key.CertificateAndK
 	name := s.ResponseKeyName
 	if name == "" {
 		name = "idp-response"
+	}
+	if s.KeysPerIssuer {
+		name = ResponseKeyFor(provider.IssuerFromContext(ctx))
 	}
 	return s.keyResult("GetResponseSigningKey", name)
 }
@@ -676,6 +697,7 @@ func Build(spec Spec) (*World, error) {
 	}
 	st.faults = append([]Fault(nil), spec.Faults...)
 	st.Lenient = spec.LenientLookup
+	st.KeysPerIssuer = spec.KeysPerIssuer
 	conf, issuer, opts := ProviderConfig(spec.IdP)
 	p, err := provider.NewProvider(st, issuer, conf, opts...)
 	if err != nil {
